@@ -1,7 +1,7 @@
 (* MiniTorch, unit C05 — algebra of the operations of OpsC05.v on TABULATED tensors (no new definitions of
    semantics).  Core: [get d (tab sh f) ix = f ix] for a multi-index of the shape, extensionality of [tab],
    then each operation on tabulated arguments of the ranks the C05 tie meets. *)
-From Coq Require Import List ZArith QArith Qcanon Bool Arith Lia.
+From Coq Require Import List ZArith QArith Qcanon Bool Arith Lia ZifyBool ZifyNat.
 From PV Require Import MiniTorch.Ops MiniTorch.OpsC05.
 Import ListNotations.
 Local Open Scope nat_scope.
@@ -171,6 +171,25 @@ Lemma get_T4 {X} (d : X) a b c e F i j k l :
   i < a -> j < b -> k < c -> l < e -> get d (T4 a b c e F) [i; j; k; l] = F i j k l.
 Proof. intros. unfold T4. rewrite get_tab by (now apply inb4_i). reflexivity. Qed.
 
+
+Lemma get_tab1 {X} (d : X) a f i : i < a -> get d (tab [a] f) [i] = f [i].
+Proof. intros. apply get_tab. now apply inb1_i. Qed.
+Lemma get_tab2 {X} (d : X) a b f i j : i < a -> j < b -> get d (tab [a; b] f) [i; j] = f [i; j].
+Proof. intros. apply get_tab. now apply inb2_i. Qed.
+Lemma get_tab3 {X} (d : X) a b c f i j k : i < a -> j < b -> k < c -> get d (tab [a; b; c] f) [i; j; k] = f [i; j; k].
+Proof. intros. apply get_tab. now apply inb3_i. Qed.
+Lemma get_tab4 {X} (d : X) a b c e f i j k l :
+  i < a -> j < b -> k < c -> l < e -> get d (tab [a; b; c; e] f) [i; j; k; l] = f [i; j; k; l].
+Proof. intros. apply get_tab. now apply inb4_i. Qed.
+Lemma forallb_tab2 {X} (p : X -> bool) a b f :
+  (forall i j, i < a -> j < b -> p (f [i; j]) = true) -> forallb p (dat (tab [a; b] f)) = true.
+Proof. intros H. apply forallb_tab. intros ix Hi. destruct (inb2 _ _ _ Hi) as (i & j & -> & ? & ?). now apply H. Qed.
+Lemma forallb_tab3 {X} (p : X -> bool) a b c f :
+  (forall i j k, i < a -> j < b -> k < c -> p (f [i; j; k]) = true) -> forallb p (dat (tab [a; b; c] f)) = true.
+Proof.
+  intros H. apply forallb_tab. intros ix Hi. destruct (inb3 _ _ _ _ Hi) as (i & j & k & -> & ? & ? & ?). now apply H.
+Qed.
+
 Lemma forallb_T2 {X} (p : X -> bool) a b F :
   (forall i j, i < a -> j < b -> p (F i j) = true) -> forallb p (dat (T2 a b F)) = true.
 Proof. intros H. apply forallb_tab. intros ix Hi. destruct (inb2 _ _ _ Hi) as (i & j & -> & ? & ?). now apply H. Qed.
@@ -200,3 +219,446 @@ Qed.
 Lemma bidx_lt n i : i < n -> bidx n i = i.
 Proof. intros H. unfold bidx. destruct (Nat.eqb_spec n 1); [lia|reflexivity]. Qed.
 Lemma bidx_1 i : bidx 1 i = 0. Proof. reflexivity. Qed.
+
+(* ---- the operations on tabulated tensors ---------------------------------------------------------------- *)
+Module M := PV.C05.Model.
+
+Lemma wrap_nonneg D (d : nat) : d < D -> wrap_dim D (Z.of_nat d) = Some d.
+Proof.
+  intros H. unfold wrap_dim. replace ((- Z.of_nat D <=? Z.of_nat d)%Z && (Z.of_nat d <? Z.of_nat D)%Z) with true by lia.
+  replace (Z.of_nat d <? 0)%Z with false by lia. now rewrite Nat2Z.id.
+Qed.
+
+Lemma nats_eqb_refl a : nats_eqb a a = true.
+Proof. induction a as [|x a IH]; [reflexivity|]. cbn. now rewrite Nat.eqb_refl. Qed.
+
+Lemma nat_sizes_of l : nat_sizes (map Z.of_nat l) = Some l.
+Proof.
+  unfold nat_sizes. replace (forallb (fun z => (0 <=? z)%Z) (map Z.of_nat l)) with true.
+  - f_equal. rewrite map_map. rewrite <- (map_id l) at 2. apply map_ext. intros. apply Nat2Z.id.
+  - symmetry. apply forallb_forall. intros z Hz. apply in_map_iff in Hz. destruct Hz as [n [<- _]]. lia.
+Qed.
+
+Lemma nat_sizes2 a b : nat_sizes [Z.of_nat a; Z.of_nat b] = Some [a; b]. Proof. apply (nat_sizes_of [a; b]). Qed.
+Lemma nat_sizes3 a b c : nat_sizes [Z.of_nat a; Z.of_nat b; Z.of_nat c] = Some [a; b; c].
+Proof. apply (nat_sizes_of [a; b; c]). Qed.
+
+Ltac leb_true := repeat match goal with
+  | H : ?a <= ?b |- context [?a <=? ?b] => replace (a <=? b) with true by (symmetry; apply Nat.leb_le; exact H)
+  end.
+
+(* constructors *)
+Lemma full_T2 {X} a b (v : X) : full [Z.of_nat a; Z.of_nat b] v = Some (T2 a b (fun _ _ => v)).
+Proof. try unfold T2; try unfold T3. unfold full. now rewrite nat_sizes2. Qed.
+Lemma full_T3 {X} a b c (v : X) : full [Z.of_nat a; Z.of_nat b; Z.of_nat c] v = Some (T3 a b c (fun _ _ _ => v)).
+Proof. try unfold T2; try unfold T3. unfold full. now rewrite nat_sizes3. Qed.
+
+(* unsqueeze *)
+Lemma unsqueeze_T1_1 {X} (d : X) a F : unsqueeze d (T1 a F) 1 = Some (T2 a 1 (fun i _ => F i)).
+Proof.
+  try unfold T1; try unfold T2; try unfold T3; try unfold T4.
+  unfold unsqueeze. unfold T1, T2; cbn [rank shp tab List.length]. change (wrap_dim 2 1) with (Some 1). cbv beta iota. f_equal.
+  cbn [insert_at firstn skipn app]. apply tab2_ext. intros i j Hi Hj. cbn [remove_at firstn skipn app at_ nth].
+  now rewrite get_tab1.
+Qed.
+Lemma unsqueeze_T2_0 {X} (d : X) a b F : unsqueeze d (T2 a b F) 0 = Some (T3 1 a b (fun _ i j => F i j)).
+Proof.
+  try unfold T1; try unfold T2; try unfold T3; try unfold T4.
+  unfold unsqueeze. unfold T2, T3; cbn [rank shp tab List.length]. change (wrap_dim 3 0) with (Some 0). cbv beta iota. f_equal.
+  cbn [insert_at firstn skipn app]. apply tab3_ext. intros i j k Hi Hj Hk. cbn [remove_at firstn skipn app at_ nth].
+  now rewrite get_tab2.
+Qed.
+Lemma unsqueeze_T2_1 {X} (d : X) a b F : unsqueeze d (T2 a b F) 1 = Some (T3 a 1 b (fun i _ j => F i j)).
+Proof.
+  try unfold T1; try unfold T2; try unfold T3; try unfold T4.
+  unfold unsqueeze. unfold T2, T3; cbn [rank shp tab List.length]. change (wrap_dim 3 1) with (Some 1). cbv beta iota. f_equal.
+  cbn [insert_at firstn skipn app]. apply tab3_ext. intros i j k Hi Hj Hk. cbn [remove_at firstn skipn app at_ nth].
+  now rewrite get_tab2.
+Qed.
+Lemma unsqueeze_T2_2 {X} (d : X) a b F : unsqueeze d (T2 a b F) 2 = Some (T3 a b 1 (fun i j _ => F i j)).
+Proof.
+  try unfold T1; try unfold T2; try unfold T3; try unfold T4.
+  unfold unsqueeze. unfold T2, T3; cbn [rank shp tab List.length]. change (wrap_dim 3 2) with (Some 2). cbv beta iota. f_equal.
+  cbn [insert_at firstn skipn app]. apply tab3_ext. intros i j k Hi Hj Hk. cbn [remove_at firstn skipn app at_ nth].
+  now rewrite get_tab2.
+Qed.
+Lemma unsqueeze_T3_3 {X} (d : X) a b c F : unsqueeze d (T3 a b c F) 3 = Some (T4 a b c 1 (fun i j k _ => F i j k)).
+Proof.
+  try unfold T1; try unfold T2; try unfold T3; try unfold T4.
+  unfold unsqueeze. unfold T2, T3, T4; cbn [rank shp tab List.length]. change (wrap_dim 4 3) with (Some 3). cbv beta iota. f_equal.
+  cbn [insert_at firstn skipn app]. apply tab4_ext. intros i j k l Hi Hj Hk Hl. cbn [remove_at firstn skipn app at_ nth].
+  now rewrite get_tab3.
+Qed.
+
+(* expand: sizes equal or the tensor's size 1 *)
+Definition exp_ok (s s' : nat) : Prop := s = s' \/ s = 1.
+Lemma exp_ok_b s s' : exp_ok s s' -> (s =? s') || (s =? 1) = true.
+Proof. intros [->| ->]; [now rewrite Nat.eqb_refl|apply orb_true_r]. Qed.
+Lemma exp_bidx s s' i : exp_ok s s' -> i < s' -> bidx s i < s.
+Proof. intros [->| ->] H; [now rewrite bidx_lt|cbn; lia]. Qed.
+
+Lemma expand_T3 {X} (d : X) a b c a' b' c' F : exp_ok a a' -> exp_ok b b' -> exp_ok c c' ->
+  expand d (T3 a b c F) [Z.of_nat a'; Z.of_nat b'; Z.of_nat c']
+  = Some (T3 a' b' c' (fun i j k => F (bidx a i) (bidx b j) (bidx c k))).
+Proof.
+  try unfold T1; try unfold T2; try unfold T3; try unfold T4.
+  intros Ha Hb Hc. unfold expand. rewrite nat_sizes3. cbn [rank shp T3 tab List.length Nat.eqb combine forallb fst snd andb].
+  rewrite (exp_ok_b _ _ Ha), (exp_ok_b _ _ Hb), (exp_ok_b _ _ Hc). cbn [andb]. f_equal.
+  apply tab3_ext. intros i j k Hi Hj Hk. cbn [zipw at_ nth].
+  rewrite get_tab3; [reflexivity|eapply exp_bidx; eassumption..].
+Qed.
+
+(* transpose(0, 1) of a 3-D tensor *)
+Lemma transpose_T3_01 {X} (d : X) a b c F : transpose d (T3 a b c F) 0 1 = Some (T3 b a c (fun i j k => F j i k)).
+Proof.
+  try unfold T1; try unfold T2; try unfold T3; try unfold T4.
+  unfold transpose. unfold T2, T3, T4; cbn [rank shp tab List.length]. change (wrap_dim 3 0) with (Some 0). change (wrap_dim 3 1) with (Some 1). cbv beta iota.
+  f_equal. cbn [swap_at set_at nth]. apply tab3_ext. intros i j k Hi Hj Hk. cbn [swap_at set_at nth at_].
+  now rewrite get_tab3.
+Qed.
+
+(* view (a, b, c) -> (a, b * c) *)
+Lemma view_merge_T3 {X} (d : X) a b c F : 0 < c ->
+  view_merge d (T3 a b c F) [Z.of_nat a; (Z.of_nat b * Z.of_nat c)%Z]
+  = Some (T2 a (b * c) (fun i r => F i (r / c) (r mod c))).
+Proof.
+  try unfold T1; try unfold T2; try unfold T3; try unfold T4.
+  intros Hc. unfold view_merge. cbn [shp T3 tab]. rewrite <- Nat2Z.inj_mul, nat_sizes2. rewrite !Nat.eqb_refl. cbn [andb].
+  f_equal. apply tab2_ext. intros i r Hi Hr. cbn [at_ nth]. rewrite get_tab3; [reflexivity|exact Hi| |].
+  - apply Nat.div_lt_upper_bound; lia.
+  - apply Nat.mod_upper_bound. lia.
+Qed.
+
+(* cat *)
+Lemma cat2_T2_1 {X} (d : X) a b b' F G :
+  cat2 d (T2 a b F) (T2 a b' G) 1 = Some (T2 a (b + b') (fun i j => if j <? b then F i j else G i (j - b))).
+Proof.
+  try unfold T1; try unfold T2; try unfold T3; try unfold T4.
+  unfold cat2. unfold T2, T3; cbn [rank shp tab List.length]. change (wrap_dim 2 1) with (Some 1). cbv beta iota.
+  cbn [remove_at firstn skipn app nats_eqb Nat.eqb nth set_at]. rewrite Nat.eqb_refl. cbn [andb]. f_equal.
+  apply tab2_ext. intros i j Hi Hj. cbn [at_ nth set_at]. destruct (Nat.ltb_spec j b).
+  - now rewrite get_tab2.
+  - rewrite get_tab2; [reflexivity|exact Hi|lia].
+Qed.
+Lemma cat2_T3_0 {X} (d : X) a a' b c F G :
+  cat2 d (T3 a b c F) (T3 a' b c G) 0 = Some (T3 (a + a') b c (fun i j k => if i <? a then F i j k else G (i - a) j k)).
+Proof.
+  try unfold T1; try unfold T2; try unfold T3; try unfold T4.
+  unfold cat2. unfold T2, T3, T4; cbn [rank shp tab List.length]. change (wrap_dim 3 0) with (Some 0). cbv beta iota.
+  cbn [remove_at firstn skipn app nats_eqb Nat.eqb nth set_at]. rewrite !Nat.eqb_refl. cbn [andb]. f_equal.
+  apply tab3_ext. intros i j k Hi Hj Hk. cbn [at_ nth set_at]. destruct (Nat.ltb_spec i a).
+  - now rewrite get_tab3.
+  - rewrite get_tab3; [reflexivity|lia|exact Hj|exact Hk].
+Qed.
+Lemma cat2_T3_1 {X} (d : X) a b b' c F G :
+  cat2 d (T3 a b c F) (T3 a b' c G) 1 = Some (T3 a (b + b') c (fun i j k => if j <? b then F i j k else G i (j - b) k)).
+Proof.
+  try unfold T1; try unfold T2; try unfold T3; try unfold T4.
+  unfold cat2. unfold T2, T3, T4; cbn [rank shp tab List.length]. change (wrap_dim 3 1) with (Some 1). cbv beta iota.
+  cbn [remove_at firstn skipn app nats_eqb Nat.eqb nth set_at]. rewrite !Nat.eqb_refl. cbn [andb]. f_equal.
+  apply tab3_ext. intros i j k Hi Hj Hk. cbn [at_ nth set_at]. destruct (Nat.ltb_spec j b).
+  - now rewrite get_tab3.
+  - rewrite get_tab3; [reflexivity|exact Hi|lia|exact Hk].
+Qed.
+Lemma cat2_T3_2 {X} (d : X) a b c c' F G :
+  cat2 d (T3 a b c F) (T3 a b c' G) 2 = Some (T3 a b (c + c') (fun i j k => if k <? c then F i j k else G i j (k - c))).
+Proof.
+  try unfold T1; try unfold T2; try unfold T3; try unfold T4.
+  unfold cat2. unfold T2, T3, T4; cbn [rank shp tab List.length]. change (wrap_dim 3 2) with (Some 2). cbv beta iota.
+  cbn [remove_at firstn skipn app nats_eqb Nat.eqb nth set_at]. rewrite !Nat.eqb_refl. cbn [andb]. f_equal.
+  apply tab3_ext. intros i j k Hi Hj Hk. cbn [at_ nth set_at]. destruct (Nat.ltb_spec k c).
+  - now rewrite get_tab3.
+  - rewrite get_tab3; [reflexivity|exact Hi|exact Hj|lia].
+Qed.
+
+(* gather *)
+Lemma zin_true n z : (0 <= z < Z.of_nat n)%Z -> zin n z = true.
+Proof. intros H. unfold zin. lia. Qed.
+
+Lemma gather_T2_1 {X} (d : X) a b a' b' F G : a' <= a ->
+  (forall i j, i < a' -> j < b' -> (0 <= G i j < Z.of_nat b)%Z) ->
+  gather d (T2 a b F) 1 (T2 a' b' G) = Some (T2 a' b' (fun i j => F i (Z.to_nat (G i j)))).
+Proof.
+  try unfold T1; try unfold T2; try unfold T3; try unfold T4.
+  intros Ha HG. unfold gather. unfold T2, T3; cbn [rank shp tab List.length]. change (wrap_dim 2 1) with (Some 1). cbv beta iota.
+  cbn [Nat.eqb remove_at firstn skipn app combine forallb fst snd nth]. leb_true. cbn [andb].
+  rewrite forallb_tab2 by (intros; apply zin_true; now apply HG). f_equal.
+  apply tab2_ext. intros i j Hi Hj. rewrite get_tab2 by assumption. cbn [set_at at_ nth]. specialize (HG i j Hi Hj).
+  rewrite get_tab2; [reflexivity|lia|lia].
+Qed.
+Lemma gather_T3_0 {X} (d : X) a b c a' b' c' F G : b' <= b -> c' <= c ->
+  (forall i j k, i < a' -> j < b' -> k < c' -> (0 <= G i j k < Z.of_nat a)%Z) ->
+  gather d (T3 a b c F) 0 (T3 a' b' c' G) = Some (T3 a' b' c' (fun i j k => F (Z.to_nat (G i j k)) j k)).
+Proof.
+  try unfold T1; try unfold T2; try unfold T3; try unfold T4.
+  intros Hb Hc HG. unfold gather. unfold T2, T3, T4; cbn [rank shp tab List.length]. change (wrap_dim 3 0) with (Some 0). cbv beta iota.
+  cbn [Nat.eqb remove_at firstn skipn app combine forallb fst snd nth]. leb_true. cbn [andb].
+  rewrite forallb_tab3 by (intros; apply zin_true; now apply HG). f_equal.
+  apply tab3_ext. intros i j k Hi Hj Hk. rewrite get_tab3 by assumption. cbn [set_at at_ nth]. specialize (HG i j k Hi Hj Hk).
+  rewrite get_tab3; [reflexivity|lia|lia|lia].
+Qed.
+Lemma gather_T3_1 {X} (d : X) a b c a' b' c' F G : a' <= a -> c' <= c ->
+  (forall i j k, i < a' -> j < b' -> k < c' -> (0 <= G i j k < Z.of_nat b)%Z) ->
+  gather d (T3 a b c F) 1 (T3 a' b' c' G) = Some (T3 a' b' c' (fun i j k => F i (Z.to_nat (G i j k)) k)).
+Proof.
+  try unfold T1; try unfold T2; try unfold T3; try unfold T4.
+  intros Ha Hc HG. unfold gather. unfold T2, T3, T4; cbn [rank shp tab List.length]. change (wrap_dim 3 1) with (Some 1). cbv beta iota.
+  cbn [Nat.eqb remove_at firstn skipn app combine forallb fst snd nth]. leb_true. cbn [andb].
+  rewrite forallb_tab3 by (intros; apply zin_true; now apply HG). f_equal.
+  apply tab3_ext. intros i j k Hi Hj Hk. rewrite get_tab3 by assumption. cbn [set_at at_ nth]. specialize (HG i j k Hi Hj Hk).
+  rewrite get_tab3; [reflexivity|lia|lia|lia].
+Qed.
+Lemma gather_T3_2 {X} (d : X) a b c a' b' c' F G : a' <= a -> b' <= b ->
+  (forall i j k, i < a' -> j < b' -> k < c' -> (0 <= G i j k < Z.of_nat c)%Z) ->
+  gather d (T3 a b c F) 2 (T3 a' b' c' G) = Some (T3 a' b' c' (fun i j k => F i j (Z.to_nat (G i j k)))).
+Proof.
+  try unfold T1; try unfold T2; try unfold T3; try unfold T4.
+  intros Ha Hb HG. unfold gather. unfold T2, T3, T4; cbn [rank shp tab List.length]. change (wrap_dim 3 2) with (Some 2). cbv beta iota.
+  cbn [Nat.eqb remove_at firstn skipn app combine forallb fst snd nth]. leb_true. cbn [andb].
+  rewrite forallb_tab3 by (intros; apply zin_true; now apply HG). f_equal.
+  apply tab3_ext. intros i j k Hi Hj Hk. rewrite get_tab3 by assumption. cbn [set_at at_ nth]. specialize (HG i j k Hi Hj Hk).
+  rewrite get_tab3; [reflexivity|lia|lia|lia].
+Qed.
+
+(* scatter with a single index layer *)
+Lemma scatter_value_T3_2 {X} (d : X) a b c F G v :
+  (forall i j, i < a -> j < b -> (0 <= G i j 0%nat < Z.of_nat c)%Z) ->
+  scatter_value d (T3 a b c F) 2 (T3 a b 1 G) v
+  = Some (T3 a b c (fun i j k => if k =? Z.to_nat (G i j 0) then v else F i j k)).
+Proof.
+  try unfold T1; try unfold T2; try unfold T3; try unfold T4.
+  intros HG. unfold scatter_value, scatter_with. unfold T2, T3, T4; cbn [rank shp tab List.length]. change (wrap_dim 3 2) with (Some 2). cbv beta iota.
+  cbn [Nat.ltb Nat.leb set_at nth]. rewrite nats_eqb_refl. cbn [andb].
+  rewrite forallb_tab3 by (intros i j k Hi Hj Hk; apply zin_true; replace k with 0 by lia; now apply HG). f_equal.
+  apply tab3_ext. intros i j k Hi Hj Hk. cbn [set_at at_ nth]. rewrite get_tab3 by (assumption || lia).
+  now rewrite get_tab3.
+Qed.
+Lemma scatter_src_T3_0 {X} (d : X) a b c F G S :
+  (forall j k, j < b -> k < c -> (0 <= G 0%nat j k < Z.of_nat a)%Z) ->
+  scatter_src d (T3 a b c F) 0 (T3 1 b c G) (T3 1 b c S)
+  = Some (T3 a b c (fun i j k => if i =? Z.to_nat (G 0 j k) then S 0 j k else F i j k)).
+Proof.
+  try unfold T1; try unfold T2; try unfold T3; try unfold T4.
+  intros HG. unfold scatter_src. cbn [shp T3 tab]. rewrite nats_eqb_refl. unfold scatter_with.
+  cbn [rank shp tab List.length]. change (wrap_dim 3 0) with (Some 0). cbv beta iota.
+  cbn [Nat.ltb Nat.leb set_at nth]. rewrite nats_eqb_refl. cbn [andb].
+  rewrite forallb_tab3 by (intros i j k Hi Hj Hk; apply zin_true; replace i with 0 by lia; now apply HG). f_equal.
+  apply tab3_ext. intros i j k Hi Hj Hk. cbn [set_at at_ nth]. rewrite !get_tab3 by (assumption || lia).
+  reflexivity.
+Qed.
+
+(* one_hot of a 3-D tensor *)
+Lemma one_hot_T3 a b c n G : 1 <= n ->
+  (forall i j k, i < a -> j < b -> k < c -> (0 <= G i j k < Z.of_nat n)%Z) ->
+  one_hot (T3 a b c G) (Z.of_nat n)
+  = Some (T4 a b c n (fun i j k l => if l =? Z.to_nat (G i j k) then 1%Z else 0%Z)).
+Proof.
+  try unfold T1; try unfold T2; try unfold T3; try unfold T4.
+  intros Hn HG. unfold one_hot. replace (1 <=? Z.of_nat n)%Z with true by lia. rewrite Nat2Z.id.
+  rewrite forallb_tab3 by (intros; apply zin_true; now apply HG). cbn [andb shp T3 tab app]. f_equal.
+  apply tab4_ext. intros i j k l Hi Hj Hk Hl. cbn [last removelast at_ nth].
+  now rewrite get_tab3.
+Qed.
+
+(* where on equal shapes *)
+Lemma where_T2 {X} (d : X) a b C F G :
+  where_ d (T2 a b C) (T2 a b F) (T2 a b G) = Some (T2 a b (fun i j => if C i j then F i j else G i j)).
+Proof.
+  try unfold T1; try unfold T2; try unfold T3; try unfold T4.
+  unfold where_. cbn [shp T2 tab]. rewrite nats_eqb_refl. cbn [andb]. f_equal. apply tab2_ext. intros i j Hi Hj.
+  cbn [at_ nth]. now rewrite !get_tab2.
+Qed.
+
+(* reductions *)
+Lemma fsum_T3_1 a b c F :
+  fsum (T3 a b c F) 1 = Some (T2 a c (fun i k => fold_right M.madd (M.Fin 0%Qc) (map (fun j => F i j k) (seq 0 b)))).
+Proof.
+  try unfold T1; try unfold T2; try unfold T3; try unfold T4.
+  unfold fsum. unfold T2, T3, T4; cbn [rank shp tab List.length]. change (wrap_dim 3 1) with (Some 1). cbv beta iota. f_equal.
+  cbn [remove_at firstn skipn app nth]. apply tab2_ext. intros i k Hi Hk. cbn [at_ nth]. f_equal.
+  apply map_ext_in. intros j Hj. apply in_seq in Hj. cbn [insert_at firstn skipn app].
+  rewrite get_tab3; [reflexivity|exact Hi|lia|exact Hk].
+Qed.
+Lemma bany_T4_2 a b c e F :
+  bany (T4 a b c e F) 2 = Some (T3 a b e (fun i j l => existsb (fun k => F i j k l) (seq 0 c))).
+Proof.
+  try unfold T1; try unfold T2; try unfold T3; try unfold T4.
+  unfold bany. unfold T3, T4; cbn [rank shp tab List.length]. change (wrap_dim 4 2) with (Some 2). cbv beta iota. f_equal.
+  cbn [remove_at firstn skipn app nth]. apply tab3_ext. intros i j l Hi Hj Hl. cbn [at_ nth].
+  assert (E : forall s, (forall k, In k s -> k < c) ->
+    existsb (fun t => get false (tab [a; b; c; e] (fun ix => F (at_ ix 0) (at_ ix 1) (at_ ix 2) (at_ ix 3))) (insert_at 2 t [i; j; l])) s
+    = existsb (fun k => F i j k l) s).
+  { induction s as [|k s IH]; intros Hs; [reflexivity|]. cbn [existsb]. rewrite IH by (intros; apply Hs; now right).
+    f_equal. cbn [insert_at firstn skipn app]. rewrite get_tab4; [reflexivity|exact Hi|exact Hj|apply Hs; now left|exact Hl]. }
+  apply E. intros k Hk. apply in_seq in Hk. lia.
+Qed.
+
+(* element-wise with broadcasting, equal ranks *)
+Lemma bdim_bidx_l a1 a2 a i : bdim a1 a2 = Some a -> i < a -> bidx a1 i < a1.
+Proof.
+  try unfold T1; try unfold T2; try unfold T3; try unfold T4.
+  unfold bdim, bidx. destruct (Nat.eqb_spec a1 a2) as [->|]; [intros [= ->] H; destruct (Nat.eqb_spec a 1); lia|].
+  destruct (Nat.eqb_spec a1 1) as [->|]; [intros; lia|]. destruct (Nat.eqb_spec a2 1) as [->|]; [intros [= ->] H; lia|discriminate].
+Qed.
+Lemma bdim_bidx_r a1 a2 a i : bdim a1 a2 = Some a -> i < a -> bidx a2 i < a2.
+Proof.
+  try unfold T1; try unfold T2; try unfold T3; try unfold T4.
+  unfold bdim, bidx. destruct (Nat.eqb_spec a1 a2) as [->|]; [intros [= ->] H; destruct (Nat.eqb_spec a 1); lia|].
+  destruct (Nat.eqb_spec a1 1) as [->|].
+  - intros [= ->] H. destruct (Nat.eqb_spec a 1); lia.
+  - destruct (Nat.eqb_spec a2 1) as [->|]; [intros; lia|discriminate].
+Qed.
+
+Lemma zipb_T2 {X Y W} (dx : X) (dy : Y) (f : X -> Y -> W) a1 b1 a2 b2 a b F G :
+  bdim a1 a2 = Some a -> bdim b1 b2 = Some b ->
+  zipb dx dy f (T2 a1 b1 F) (T2 a2 b2 G)
+  = Some (T2 a b (fun i j => f (F (bidx a1 i) (bidx b1 j)) (G (bidx a2 i) (bidx b2 j)))).
+Proof.
+  try unfold T1; try unfold T2; try unfold T3; try unfold T4.
+  intros Ha Hb. unfold zipb. cbn [shp T2 tab bc_shape]. rewrite Ha, Hb. f_equal.
+  apply tab2_ext. intros i j Hi Hj. cbn [zipw at_ nth].
+  rewrite !get_tab2; eauto using bdim_bidx_l, bdim_bidx_r.
+Qed.
+Lemma zipb_T3 {X Y W} (dx : X) (dy : Y) (f : X -> Y -> W) a1 b1 c1 a2 b2 c2 a b c F G :
+  bdim a1 a2 = Some a -> bdim b1 b2 = Some b -> bdim c1 c2 = Some c ->
+  zipb dx dy f (T3 a1 b1 c1 F) (T3 a2 b2 c2 G)
+  = Some (T3 a b c (fun i j k => f (F (bidx a1 i) (bidx b1 j) (bidx c1 k)) (G (bidx a2 i) (bidx b2 j) (bidx c2 k)))).
+Proof.
+  try unfold T1; try unfold T2; try unfold T3; try unfold T4.
+  intros Ha Hb Hc. unfold zipb. cbn [shp T3 tab bc_shape]. rewrite Ha, Hb, Hc. f_equal.
+  apply tab3_ext. intros i j k Hi Hj Hk. cbn [zipw at_ nth].
+  rewrite !get_tab3; eauto using bdim_bidx_l, bdim_bidx_r.
+Qed.
+Lemma zipb_T4 {X Y W} (dx : X) (dy : Y) (f : X -> Y -> W) a1 b1 c1 e1 a2 b2 c2 e2 a b c e F G :
+  bdim a1 a2 = Some a -> bdim b1 b2 = Some b -> bdim c1 c2 = Some c -> bdim e1 e2 = Some e ->
+  zipb dx dy f (T4 a1 b1 c1 e1 F) (T4 a2 b2 c2 e2 G)
+  = Some (T4 a b c e (fun i j k l => f (F (bidx a1 i) (bidx b1 j) (bidx c1 k) (bidx e1 l))
+                                      (G (bidx a2 i) (bidx b2 j) (bidx c2 k) (bidx e2 l)))).
+Proof.
+  try unfold T1; try unfold T2; try unfold T3; try unfold T4.
+  intros Ha Hb Hc He. unfold zipb. cbn [shp T4 tab bc_shape]. rewrite Ha, Hb, Hc, He. f_equal.
+  apply tab4_ext. intros i j k l Hi Hj Hk Hl. cbn [zipw at_ nth].
+  rewrite !get_tab4; eauto using bdim_bidx_l, bdim_bidx_r.
+Qed.
+
+Lemma masked_fill_T2 {X} (d : X) a b a2 b2 F G v : bdim a a2 = Some a -> bdim b b2 = Some b ->
+  masked_fill d (T2 a b F) (T2 a2 b2 G) v
+  = Some (T2 a b (fun i j => if G (bidx a2 i) (bidx b2 j) then v else F (bidx a i) (bidx b j))).
+Proof.
+  intros Ha Hb. unfold masked_fill. rewrite (zipb_T2 _ _ _ _ _ _ _ a b) by assumption.
+  unfold T2. cbn [shp tab]. now rewrite nats_eqb_refl.
+Qed.
+Lemma masked_fill_T3 {X} (d : X) a b c a2 b2 c2 F G v : bdim a a2 = Some a -> bdim b b2 = Some b -> bdim c c2 = Some c ->
+  masked_fill d (T3 a b c F) (T3 a2 b2 c2 G) v
+  = Some (T3 a b c (fun i j k => if G (bidx a2 i) (bidx b2 j) (bidx c2 k) then v else F (bidx a i) (bidx b j) (bidx c k))).
+Proof.
+  intros Ha Hb Hc. unfold masked_fill. rewrite (zipb_T3 _ _ _ _ _ _ _ _ _ a b c) by assumption.
+  unfold T3. cbn [shp tab]. now rewrite nats_eqb_refl.
+Qed.
+
+(* topk with the oracle's answers *)
+Lemma topk_T2 sel a m k F :
+  k <= m ->
+  (forall i, i < a -> List.length (sel i (map (F i) (seq 0 m)) k) = k /\
+                      forall j, In j (sel i (map (F i) (seq 0 m)) k) -> j < m) ->
+  topk sel (T2 a m F) (Z.of_nat k) 1
+  = Some (T2 a k (fun i j => F i (nth j (sel i (map (F i) (seq 0 m)) k) 0)),
+          T2 a k (fun i j => Z.of_nat (nth j (sel i (map (F i) (seq 0 m)) k) 0))).
+Proof.
+  try unfold T1; try unfold T2; try unfold T3; try unfold T4.
+  intros Hk Hs. unfold topk. cbn [shp T2 tab]. change (wrap_dim 2 1) with (Some 1). cbv beta iota.
+  replace ((0 <=? Z.of_nat k)%Z && (Z.of_nat k <=? Z.of_nat m)%Z) with true by lia. rewrite Nat2Z.id.
+ 
+  assert (Er : forall i, i < a -> map (fun j => get M.NegInf (tab [a; m] (fun ix => F (at_ ix 0) (at_ ix 1))) [i; j]) (seq 0 m)
+                                 = map (F i) (seq 0 m)).
+  { intros i Hi. apply map_ext_in. intros j Hj. apply in_seq in Hj. rewrite get_tab2; [reflexivity|exact Hi|lia]. }
+  replace (forallb _ (seq 0 a)) with true.
+  - f_equal. f_equal.
+    + apply tab2_ext. intros i j Hi Hj. cbn [at_ nth]. rewrite (Er i Hi). destruct (Hs i Hi) as [Hl Hin].
+      rewrite get_tab2; [reflexivity|exact Hi|]. apply Hin. apply nth_In. now rewrite Hl.
+    + apply tab2_ext. intros i j Hi Hj. cbn [at_ nth]. now rewrite (Er i Hi).
+  - symmetry. apply forallb_forall. intros i Hi. apply in_seq in Hi. rewrite (Er i) by lia.
+    destruct (Hs i) as [Hl Hin]; [lia|]. rewrite Hl, Nat.eqb_refl. cbn [andb]. apply forallb_forall.
+    intros j Hj. apply Nat.ltb_lt. now apply Hin.
+Qed.
+
+(* ---- the broadcasting patterns the function uses ------------------------------------------------------ *)
+Lemma zipb_T2_same {X Y W} (dx : X) (dy : Y) (f : X -> Y -> W) a b F G :
+  zipb dx dy f (T2 a b F) (T2 a b G) = Some (T2 a b (fun i j => f (F i j) (G i j))).
+Proof.
+  rewrite (zipb_T2 _ _ _ a b a b a b) by apply bdim_refl. f_equal. apply T2_ext. intros i j Hi Hj.
+  rewrite ?bidx_1. now rewrite ?bidx_lt by assumption.
+Qed.
+Lemma zipb_T2_col {X Y W} (dx : X) (dy : Y) (f : X -> Y -> W) a b F G :
+  zipb dx dy f (T2 a b F) (T2 a 1 G) = Some (T2 a b (fun i j => f (F i j) (G i 0))).
+Proof.
+  rewrite (zipb_T2 _ _ _ a b a 1 a b) by (apply bdim_refl || apply bdim_1_r). f_equal. apply T2_ext. intros i j Hi Hj.
+  rewrite ?bidx_1. now rewrite ?bidx_lt by assumption.
+Qed.
+Lemma zipb_T3_same {X Y W} (dx : X) (dy : Y) (f : X -> Y -> W) a b c F G :
+  zipb dx dy f (T3 a b c F) (T3 a b c G) = Some (T3 a b c (fun i j k => f (F i j k) (G i j k))).
+Proof.
+  rewrite (zipb_T3 _ _ _ a b c a b c a b c) by apply bdim_refl. f_equal. apply T3_ext. intros i j k Hi Hj Hk.
+  rewrite ?bidx_1. now rewrite ?bidx_lt by assumption.
+Qed.
+Lemma zipb_T3_last1 {X Y W} (dx : X) (dy : Y) (f : X -> Y -> W) a b c F G :
+  zipb dx dy f (T3 a b c F) (T3 a b 1 G) = Some (T3 a b c (fun i j k => f (F i j k) (G i j 0))).
+Proof.
+  rewrite (zipb_T3 _ _ _ a b c a b 1 a b c) by (apply bdim_refl || apply bdim_1_r). f_equal. apply T3_ext.
+  intros i j k Hi Hj Hk. rewrite ?bidx_1. now rewrite ?bidx_lt by assumption.
+Qed.
+Lemma zipb_T3_outer {X Y W} (dx : X) (dy : Y) (f : X -> Y -> W) a b c F G :
+  zipb dx dy f (T3 a b 1 F) (T3 a 1 c G) = Some (T3 a b c (fun i j k => f (F i j 0) (G i 0 k))).
+Proof.
+  rewrite (zipb_T3 _ _ _ a b 1 a 1 c a b c) by (apply bdim_refl || apply bdim_1_r || apply bdim_1_l). f_equal.
+  apply T3_ext. intros i j k Hi Hj Hk. rewrite ?bidx_1. now rewrite ?bidx_lt by assumption.
+Qed.
+Lemma zipb_T4_last1 {X Y W} (dx : X) (dy : Y) (f : X -> Y -> W) a b c e F G :
+  zipb dx dy f (T4 a b c e F) (T4 a b c 1 G) = Some (T4 a b c e (fun i j k l => f (F i j k l) (G i j k 0))).
+Proof.
+  rewrite (zipb_T4 _ _ _ a b c e a b c 1 a b c e) by (apply bdim_refl || apply bdim_1_r). f_equal. apply T4_ext.
+  intros i j k l Hi Hj Hk Hl. rewrite ?bidx_1. now rewrite ?bidx_lt by assumption.
+Qed.
+Lemma masked_fill_T2_same {X} (d : X) a b F G v :
+  masked_fill d (T2 a b F) (T2 a b G) v = Some (T2 a b (fun i j => if G i j then v else F i j)).
+Proof.
+  rewrite masked_fill_T2 by apply bdim_refl. f_equal. apply T2_ext. intros i j Hi Hj. rewrite ?bidx_1. now rewrite ?bidx_lt by assumption.
+Qed.
+Lemma masked_fill_T3_same {X} (d : X) a b c F G v :
+  masked_fill d (T3 a b c F) (T3 a b c G) v = Some (T3 a b c (fun i j k => if G i j k then v else F i j k)).
+Proof.
+  rewrite masked_fill_T3 by apply bdim_refl. f_equal. apply T3_ext. intros i j k Hi Hj Hk. rewrite ?bidx_1. now rewrite ?bidx_lt by assumption.
+Qed.
+Lemma masked_fill_T3_last1 {X} (d : X) a b c F G v :
+  masked_fill d (T3 a b c F) (T3 a b 1 G) v = Some (T3 a b c (fun i j k => if G i j 0 then v else F i j k)).
+Proof.
+  rewrite masked_fill_T3 by (apply bdim_refl || apply bdim_1_r). f_equal. apply T3_ext. intros i j k Hi Hj Hk.
+  rewrite ?bidx_1. now rewrite ?bidx_lt by assumption.
+Qed.
+
+(* expand patterns *)
+Lemma expand_T3_last {X} (d : X) a b c F :
+  expand d (T3 a b 1 F) [Z.of_nat a; Z.of_nat b; Z.of_nat c] = Some (T3 a b c (fun i j _ => F i j 0)).
+Proof.
+  rewrite expand_T3 by (unfold exp_ok; auto). f_equal. apply T3_ext. intros i j k Hi Hj Hk. rewrite ?bidx_1. now rewrite ?bidx_lt by assumption.
+Qed.
+Lemma expand_T3_first {X} (d : X) a b c F :
+  expand d (T3 1 b c F) [Z.of_nat a; Z.of_nat b; Z.of_nat c] = Some (T3 a b c (fun _ j k => F 0 j k)).
+Proof.
+  rewrite expand_T3 by (unfold exp_ok; auto). f_equal. apply T3_ext. intros i j k Hi Hj Hk. rewrite ?bidx_1. now rewrite ?bidx_lt by assumption.
+Qed.
+Lemma expand_T3_mid {X} (d : X) a b c F :
+  expand d (T3 a 1 c F) [Z.of_nat a; Z.of_nat b; Z.of_nat c] = Some (T3 a b c (fun i _ k => F i 0 k)).
+Proof.
+  rewrite expand_T3 by (unfold exp_ok; auto). f_equal. apply T3_ext. intros i j k Hi Hj Hk. rewrite ?bidx_1. now rewrite ?bidx_lt by assumption.
+Qed.
+
+Lemma fold_madd_fin (g : nat -> Qc) l :
+  fold_right M.madd (M.Fin 0%Qc) (map (fun k => M.Fin (g k)) l) = M.Fin (M.qsum (map g l)).
+Proof. induction l as [|x l IH]; [reflexivity|]. cbn [map fold_right]. rewrite IH. reflexivity. Qed.
+Lemma zipb_T3_last1_l {X Y W} (dx : X) (dy : Y) (f : X -> Y -> W) a b c F G :
+  zipb dx dy f (T3 a b 1 F) (T3 a b c G) = Some (T3 a b c (fun i j k => f (F i j 0) (G i j k))).
+Proof.
+  rewrite (zipb_T3 _ _ _ a b 1 a b c a b c) by (apply bdim_refl || apply bdim_1_l). f_equal. apply T3_ext.
+  intros i j k Hi Hj Hk. rewrite ?bidx_1. now rewrite ?bidx_lt by assumption.
+Qed.
